@@ -1305,7 +1305,7 @@ fn field_item(i: u64) -> Option<(String, Vec<Glyph>, Option<Layout>)> {
         let pts: Vec<Pt> = (0..n).map(|k| ((k % 256) as i16, (k / 256) as i16, k % 3 != 1)).collect();
         let split = 40_000usize;
         let contours = if idx == 0 { vec![pts] } else { vec![pts[..split].to_vec(), pts[split..].to_vec()] };
-        return Some((format!("simple glyph with {} points (last endPt {:#X})", n, n - 1), vec![Glyph::Simple(SimpleGlyph::from_contours(contours)), comp_of(0)], None));
+        return Some((format!("simple glyph with {} points (last endPt {:#X})", n, n - 1), vec![Glyph::Simple(SimpleGlyph::from_contours(contours)), comp_of(0)], Some(Layout::long())));
     }
     idx -= 2;
     // ---- instruction lengths (simple / composite)
